@@ -11,7 +11,7 @@ use super::attr::{Attr, MAXC};
 use super::ideal::{mark_near_segment, ITri, Vp};
 use super::scene::{pack, render_clip, Canvas, ClipScene, Tk};
 use crate::geo::P2;
-use crate::{catch, f32v, Cfg, Hasher, Json, Report, Rng};
+use crate::{catch, f32s, f32v, Cfg, Hasher, Json, Report, Rng};
 use re::geom::{vertex, Tri, Vertex};
 use re::math::color::{Color3f, Color4f};
 use re::math::mat::{orthographic, perspective, viewport, Mat4x4, RealToReal};
@@ -41,6 +41,9 @@ pub struct Scene<A> {
     pub tk: Tk,
     pub prior_random: bool,
     pub prior_seed: u64,
+    /// all reciprocal depths of the scene are multiplied by this (the clip
+    /// vectors were scaled by its inverse); the prior frame's depths too
+    pub depth_scale: f32,
     pub gen_mode: u32,
 }
 
@@ -66,7 +69,9 @@ impl<A: Attr> Scene<A> {
         // reciprocal depths of the generated surfaces are O(0.1..10)
         match h % 4 {
             0 => 0.0,
-            _ => ((h >> 8) % 10_000) as f32 / 2_000.0,
+            // incl. the library's own clear value: nothing is nearer than +inf
+            1 if (h >> 40) % 16 == 0 => f32::INFINITY,
+            _ => ((h >> 8) % 10_000) as f32 / 2_000.0 * self.depth_scale,
         }
     }
     pub fn canvas(&self) -> Canvas {
@@ -82,6 +87,7 @@ impl<A: Attr> Scene<A> {
             .set("viewport_mirrored_xy", format!("{:?}", self.flip))
             .set("prior_depth", if self.prior_random { "random per pixel" } else { "0 (far)" })
             .set("generator", self.gen_mode)
+            .set("depth_scale", f32s(self.depth_scale))
             .set("tris", format!("{:?}", self.cs.tris))
             .set(
                 "clip_verts",
@@ -123,11 +129,17 @@ fn gen_attr<A: Attr>(rng: &mut Rng, lo: f32, hi: f32) -> A {
 pub fn gen_scene<A: Attr>(rng: &mut Rng, max_tris: usize, maxdim: u32) -> Scene<A> {
     let (bw, bh, win, vp, tk) = gen_targets(rng, maxdim);
     let ntri = 1 + rng.usize(max_tris);
-    let gen_mode = rng.below(6) as u32;
+    let gen_mode = rng.below(9) as u32;
+    let flip = if rng.chance(1, 6) { (rng.bool(), rng.bool()) } else { (false, false) };
+    // screen position (window pixels) → clip coordinates at a given w
+    let (hw, hh) = ((vp.2 - vp.0) as f32 / 2.0 * if flip.0 { -1.0 } else { 1.0 }, (vp.3 - vp.1) as f32 / 2.0 * if flip.1 { -1.0 } else { 1.0 });
+    let (cx, cy) = (vp.0 as f32 + hw.abs(), vp.1 as f32 + hh.abs());
+    let from_screen = |sx: f32, sy: f32, zn: f32, w: f32| -> [f32; 4] { [(sx - cx) / hw * w, (sy - cy) / hh * w, zn * w, w] };
     let (alo, ahi) = rng.pick(&[(0.0f32, 1.0f32), (0.0, 1.0), (-100.0, 100.0), (0.0, 255.0)]);
     let decade = (10.0f64).powf(rng.f64_in(-1.0, 1.0)) as f32;
     let mut verts: Vec<([f32; 4], A)> = vec![];
     let mut tris = vec![];
+    let mut small_centre = (0.0f32, 0.0f32);
     // view-space generator state
     let near = rng.pick(&[0.1f32, 1.0]);
     let far = near * rng.pick(&[10.0f32, 100.0]);
@@ -168,6 +180,30 @@ pub fn gen_scene<A: Attr>(rng: &mut Rng, max_tris: usize, maxdim: u32) -> Scene<
                     };
                     [c(rng), c(rng), c(rng), w]
                 }
+                6 => {
+                    // w over three and a half decades inside one triangle
+                    let w = rng.log_f32(0.01, 30.0);
+                    [rng.f32_in(-1.3, 1.3) * w, rng.f32_in(-1.3, 1.3) * w, rng.f32_in(-1.0, 1.0) * w, w]
+                }
+                7 => {
+                    // small triangles (a fraction of a pixel to a few pixels)
+                    // around a pixel centre somewhere in the viewport
+                    if verts.len() % 3 == 0 {
+                        small_centre = (vp.0 as f32 + rng.below((vp.2 - vp.0) as u64) as f32 + 0.5, vp.1 as f32 + rng.below((vp.3 - vp.1) as u64) as f32 + 0.5);
+                    }
+                    let r = rng.pick(&[0.3f32, 0.6, 1.5, 3.0]);
+                    let w = rng.f32_in(0.5, 2.0);
+                    from_screen(small_centre.0 + rng.f32_in(-r, r), small_centre.1 + rng.f32_in(-r, r), rng.f32_in(-0.9, 0.9), w)
+                }
+                8 => {
+                    // vertices on the 1/8-pixel lattice, w = 1 (screen-aligned
+                    // quads and fans: flat tops and bottoms in mid-viewport,
+                    // vertices exactly on pixel centres)
+                    let sx = vp.0 as f32 + (rng.below(8 * (vp.2 - vp.0) as u64 + 1) as f32) / 8.0;
+                    let sy = vp.1 as f32 + (rng.below(8 * (vp.3 - vp.1) as u64 + 1) as f32) / 8.0;
+                    let (sx, sy) = if rng.chance(1, 3) { (sx.floor() + 0.5, sy.floor() + 0.5) } else if rng.chance(1, 3) { (sx.floor(), sy.floor()) } else { (sx, sy) };
+                    from_screen(sx, sy, rng.f32_in(-0.9, 0.9), 1.0)
+                }
                 _ => {
                     // view space through the library's projection (the clip
                     // coordinates are whatever the library matrix yields)
@@ -189,8 +225,19 @@ pub fn gen_scene<A: Attr>(rng: &mut Rng, max_tris: usize, maxdim: u32) -> Scene<
         tris[1][0] = tris[0][1];
         tris[1][1] = tris[0][0];
     }
-    let flip = if rng.chance(1, 6) { (rng.bool(), rng.bool()) } else { (false, false) };
-    Scene { cs: ClipScene { verts, tris }, bw, bh, win, vp, flip, tk, prior_random: tk.has_depth() && rng.chance(1, 3), prior_seed: rng.u64(), gen_mode }
+    // Absolute scale: the statement bounds coordinates relative to each other
+    // only. One scene in six has every clip vector multiplied by 2^k (exact):
+    // the footprint is unchanged, all reciprocal depths scale by 2^-k.
+    let mut depth_scale = 1.0f32;
+    if rng.chance(1, 6) {
+        let k = rng.int(-60, 60) as i32;
+        let f = 2.0f32.powi(k);
+        for (p, _) in verts.iter_mut() {
+            *p = p.map(|c| c * f);
+        }
+        depth_scale = 2.0f32.powi(-k);
+    }
+    Scene { cs: ClipScene { verts, tris }, bw, bh, win, vp, flip, tk, prior_random: tk.has_depth() && rng.chance(1, 3), prior_seed: rng.u64(), gen_mode, depth_scale }
 }
 
 pub struct Oracle {
@@ -205,6 +252,8 @@ pub struct Oracle {
     pub w: usize,
     pub h: usize,
     pub unmappable: bool,
+    /// the library's clipper returned a vertex with a non-finite coordinate or w = 0
+    pub clip_nonfinite: bool,
 }
 
 /// Builds the ideal-image oracle and the ambiguity mask for a scene.
@@ -247,7 +296,14 @@ pub fn build_oracle<A: Attr>(sc: &Scene<A>) -> Oracle {
         out
     })
     .unwrap_or_default();
+    let mut clip_nonfinite = false;
     for Tri(cv) in &clipped {
+        if cv.iter().any(|c| c.pos.0.iter().any(|x| !x.is_finite()) || !(c.pos.0[3] != 0.0)) {
+            // masking "near" such a vertex would mask everything and accept
+            // the scene: reported by judge_scene instead
+            clip_nonfinite = true;
+            continue;
+        }
         let s: Vec<P2> = cv.iter().map(|c| vpx.to_screen(&c.pos.0.map(|x| x as f64))).collect();
         for i in 0..3 {
             mark_near_segment(&mut mask, w, h, s[i], s[(i + 1) % 3], MASK_R);
@@ -256,7 +312,7 @@ pub fn build_oracle<A: Attr>(sc: &Scene<A>) -> Oracle {
             }
         }
     }
-    Oracle { itris, mask, drift, mask_drift, vpx, w, h, unmappable }
+    Oracle { itris, mask, drift, mask_drift, vpx, w, h, unmappable, clip_nonfinite }
 }
 
 /// F9 attribution helper: bound on the error accumulated in a stepped
@@ -377,7 +433,47 @@ fn judge_image<A: Attr>(rep: &mut Report, sc: &Scene<A>, or: &Oracle, cv: &Canva
             }
             if !sc.tk.has_depth() {
                 if hits.len() > 1 {
-                    rep.count("pixels.colour_only_overlap(skipped)");
+                    // no depth buffer: which of the covering triangles ends up
+                    // on top is submission order; still, the pixel must have
+                    // been drawn and must hold the value of *one* of them
+                    rep.count("pixels.colour_only_overlap(judged against every covering triangle)");
+                    if gc == pc {
+                        rep.violation(
+                            if near_drift { "image.edge_drift_large_extent" } else { "image.inside_pixel_not_drawn" },
+                            format!("pixel ({x},{y}) lies inside the visible parts of {} triangles (≥ {MASK_R} px from all edges) but kept its previous colour", hits.len()),
+                            sc.json(),
+                        );
+                        if near_drift {
+                            continue;
+                        }
+                        return false;
+                    }
+                    let got_a = f32::from_bits(gc) as f64;
+                    let ok = hits.iter().any(|&(_, k, bb)| {
+                        let ea = bb[0] * av[k][0] + bb[1] * av[k][1] + bb[2] * av[k][2];
+                        // the same tolerance as for a single covering triangle:
+                        // 0.5 % of the range, the rounding floor, and the value's
+                        // change over 0.001 px (on large targets: over the drift)
+                        let d = if or.drift > 0.0 { or.drift } else { 0.001 };
+                        let mut slack = 0.0f64;
+                        for (dx, dy) in [(d, 0.0), (-d, 0.0), (0.0, d), (0.0, -d)] {
+                            if let Some((_, b2)) = or.itris[k].eval(or.vpx.to_ndc((centre.0 + dx, centre.1 + dy))) {
+                                slack = slack.max((b2[0] * av[k][0] + b2[1] * av[k][1] + b2[2] * av[k][2] - ea).abs());
+                            }
+                        }
+                        (got_a - ea).abs() <= 0.005 * ranges[k].0 + 1e-5 * ranges[k].1 + slack + 1e-30
+                    });
+                    if !ok {
+                        rep.violation(
+                            if near_drift { "image.edge_drift_large_extent" } else { "image.wrong_attribute" },
+                            format!("pixel ({x},{y}) comp {comp}: colour-only target holds attribute {got_a} ({gc:#x}), which is the value of none of the {} triangles covering it", hits.len()),
+                            sc.json(),
+                        );
+                        if near_drift {
+                            continue;
+                        }
+                        return false;
+                    }
                     continue;
                 }
             } else {
@@ -545,6 +641,10 @@ pub fn judge_scene<A: Attr>(rep: &mut Report, sc: &Scene<A>) {
         rep.skip("scene.visible_polygon_touches_w=0");
         return;
     }
+    if or.clip_nonfinite {
+        rep.violation("image.clipper_produced_nonfinite_vertex", "view_frustum::clip returned a vertex with a non-finite coordinate (or w = 0) for finite input whose visible part stays away from w = 0".into(), sc.json());
+        return;
+    }
     let ctx = Context { face_cull: None, ..Context::default() };
     let to_screen = screen_matrix(sc.vp, sc.flip);
     for comp in 0..A::N {
@@ -566,6 +666,9 @@ pub fn judge_scene<A: Attr>(rep: &mut Report, sc: &Scene<A>) {
     }
     if sc.flip != (false, false) {
         rep.count("viewport.mirrored");
+    }
+    if sc.depth_scale != 1.0 {
+        rep.count("scene.scaled_by_a_power_of_two");
     }
 }
 
@@ -680,6 +783,7 @@ fn front_door_case(rng: &mut Rng, rep: &mut Report) {
         prior_random: sc.prior_random,
         prior_seed: sc.prior_seed,
         gen_mode: 9,
+        depth_scale: sc.depth_scale,
     };
     let or = build_oracle(&sc2);
     if !or.unmappable {
@@ -707,6 +811,7 @@ pub fn run(cfg: &Cfg, rep: &mut Report) {
             prior_random: false,
             prior_seed: 0,
             gen_mode: 99,
+            depth_scale: 1.0,
         };
         let mut r2 = Report::new();
         judge_scene(&mut r2, &sc);
@@ -732,6 +837,7 @@ pub fn run(cfg: &Cfg, rep: &mut Report) {
             prior_random: false,
             prior_seed: 0,
             gen_mode: 99,
+            depth_scale: 1.0,
         };
         let mut r2 = Report::new();
         judge_scene(&mut r2, &sc);
@@ -762,6 +868,7 @@ pub fn run(cfg: &Cfg, rep: &mut Report) {
             prior_random: false,
             prior_seed: 0,
             gen_mode: 99,
+            depth_scale: 1.0,
         };
         let mut r2 = Report::new();
         judge_scene(&mut r2, &sc);
@@ -798,6 +905,17 @@ pub fn run(cfg: &Cfg, rep: &mut Report) {
         }
     });
 
+    // the oracle's two formulations (β test, polygon containment) must agree
+    // on all but a sliver of pixels, or the oracle itself is in doubt
+    {
+        let skipped = rep.classes.get("pixels.oracle_selfcheck_disagree(skipped)").copied().unwrap_or(0);
+        let judged = rep.classes.get("pixels.judged_inside").copied().unwrap_or(0) + rep.classes.get("pixels.judged_outside").copied().unwrap_or(0);
+        rep.info("oracle_selfcheck_skipped_per_million_judged", (skipped as f64 * 1e6 / judged.max(1) as f64).round() as i64);
+        if skipped * 1000 <= judged {
+            rep.count("oracle_selfcheck_disagreement_below_one_per_mille");
+        }
+    }
+    rep.floor("oracle_selfcheck_disagreement_below_one_per_mille", 1);
     rep.floor("pixels.judged_inside", 2_000_000);
     rep.floor("pixels.judged_outside", 2_000_000);
     rep.floor("pixels.judged_occluded_by_prior_depth", 10_000);
@@ -806,4 +924,14 @@ pub fn run(cfg: &Cfg, rep: &mut Report) {
     rep.floor("viewport.mirrored", 1_000);
     rep.floor("front_door.camera_drew_fragments", 1_000);
     rep.floor("large_targets.viewport_above_512px", 100);
+    rep.floor("scene.scaled_by_a_power_of_two", 10_000);
+    for g in 0..9 {
+        rep.floor(&format!("generator.{g}"), 5_000);
+    }
+    for a in ["f32", "Vec2", "Vec3", "Color3f", "Color4f", "Angle", "Point3"] {
+        rep.floor(&format!("attr.{a}"), 5_000);
+    }
+    for t in [Tk::FbOwned, Tk::FbWindow, Tk::ColOwned, Tk::ColWindow] {
+        rep.floor(&format!("target.{}", t.name()), 5_000);
+    }
 }
